@@ -620,6 +620,9 @@ fn stage_semantic_replica(st: &mut Stats, w: &crate::bftsim::World) {
             let (local, m) = (local.clone(), m.clone());
             stage_case(st, "semantic_replica", desc, json!({"harness":"c10-semantic","part":"replica","state":lname,"message":mname}), 64 << 20, move || {
                 let out = step(w, 0, &local, &Input::Msg(m), &Policy::default());
+                if let Some(p) = out.panicked {
+                    std::panic::resume_unwind(Box::new(p));
+                }
                 if let Some(e) = out.runner_error {
                     return Err(e);
                 }
